@@ -360,7 +360,9 @@ CLAIMED = {
         'endless R(ACK) with the other block number and endless response chaining keep IsoDepInitiator.exchange '
         'sending for ever.',
    design_ref='DESIGN.md Part A sections A.4 (this property), A.8',
-   note='Tag.ndef / NDEF.has_changed wrappers, nfc.tag.activate dispatch and vendor probing are NOT decided here. '
+   note='Tag.ndef and NDEF.has_changed are proved over a summary of the type specific reader (None or the message, '
+        'nothing raised - what the reader contracts establish). nfc.tag.activate dispatch and vendor probing are NOT '
+        'decided here. '
         'len() of a set of byte addresses is abstracted to its bounds (the same set expression has the same size). '
         'Termination of the ISO-DEP loops is not proved (no variant exists); the three known findings are listed in '
         'known_findings.json and printed as KNOWN-FINDING lines on every run.',
